@@ -137,17 +137,18 @@ Definition spec_failures (vt : vtype) (tentative declares cand_is_type : bool) (
   (if negb tentative && negb declares then [FDoesNotImplement] else [])
   ++ filter_map (elem_failure vt cand_is_type) elems.
 
-(* the signatures met in a candidate are those of real Python functions *)
+(* the signatures met in a candidate are those of real Python functions, and a function reached
+   through an instance has somewhere to put it: a first parameter or *args *)
 Definition elem_wf (vt : vtype) (cand_is_type : bool) (e : elem) : Prop :=
   let '(_, d, a) := e in
   (forall s, d = DMethod s -> wf s) /\
   (forall self_bound raw, callee vt cand_is_type a = Some (self_bound, raw) ->
-     wf raw /\ (self_bound = true -> 1 <= npos raw)).
+     wf raw /\ (self_bound = true -> 1 <= npos raw \/ varargs raw = true)).
 
 Definition elem_wfb (vt : vtype) (cand_is_type : bool) (e : elem) : bool :=
   let '(_, d, a) := e in
   (match d with DMethod s => wfb s | DAttr => true end) &&
   (match callee vt cand_is_type a with
-   | Some (self_bound, raw) => wfb raw && (negb self_bound || Nat.leb 1 (npos raw))
+   | Some (self_bound, raw) => wfb raw && (negb self_bound || Nat.leb 1 (npos raw) || varargs raw)
    | None => true
    end).
